@@ -368,7 +368,7 @@ func (c *c08) text(rs []rune, bucket string, level int) {
 		return
 	}
 	caps := []int{need, need - 1}
-	if level > 1 {
+	if level > 1 && !(r.Quick && c.xl > 0) {
 		caps = append(caps, need+1+r.Rng.Intn(8))
 	}
 	seenCap := map[int]bool{}
@@ -396,9 +396,9 @@ func (c *c08) text(rs []rune, bucket string, level int) {
 	}
 	// decoder capacities on the canonical octets
 	needD := len(s)
-	for _, cp := range []int{needD, needD - 1, needD + 3} {
-		if cp < 0 {
-			continue
+	for i, cp := range []int{needD, needD - 1, needD + 3} {
+		if cp < 0 || (r.Quick && c.xl > 0 && i != c.nCase%3) {
+			continue // the direct Transform calls of xfDec cover the sizes; one older-style case per text keeps dec_transform tied
 		}
 		cls, out, msg := g7Transform(gsm7bit.Packed.NewDecoder().Transformer, e.out, cp)
 		r.Count(fmt.Sprintf("dcap/%s/%d", s, cp), true, "decoder capacity "+capBucket(cp, needD))
